@@ -265,13 +265,14 @@ func changedAt(got, want []int32) int {
 
 // watch puts the two slices of a (valid) answer under watch for the next cases (checker.Keep): after later
 // ShardByPrefix calls - other keys, or the same keys with another maxSize - L and B must still read as they
-// did when they were returned (private copies), so the pair is still the valid answer it was. Their spare
-// capacity is overwritten first: it is the caller's (append). L and B are []int32: they cannot share
+// did when they were returned (private copies), so the pair is still the valid answer it was. L and B are []int32: they cannot share
 // memory with the []string argument, so nothing here depends on what happens to the argument later.
 func watch(L, B []int32, n int, maxSize int32) {
 	wantL, wantB := append([]int32(nil), L...), append([]int32(nil), B...)
-	vk.ScribbleI32(L)
-	vk.ScribbleI32(B)
+	// (the spare capacity of L and B is NOT overwritten: the statement does not say that the two slices of one answer
+	// have separate backing arrays - a correct variant cuts both out of one allocation, L = buf[:k], B = buf[k:] -
+	// so what a caller's append to L would do to B is not this property's business; what later LIBRARY calls do to
+	// an earlier answer is)
 	keep(func() string {
 		if at := changedAt(L, wantL); at >= 0 {
 			return fmt.Sprintf("ShardByPrefix(%d keys, maxSize=%d) returned %d shards with prefix length L[%d] = %d, which now reads %d", n, maxSize, len(wantL), at, wantL[at], L[at])
